@@ -509,6 +509,12 @@ impl<Writer: Write> Mp4Writer<Writer> {
             if delta > u64::from(u32::MAX) {
                 return Err(Mp4WriterError::DurationOverflow);
             }
+            // The track duration (the last sample repeats this delta) is stored in the 32-bit
+            // mdhd duration field: refuse the frame that would make it wrap.
+            let first = self.video_samples.first().map_or(dts, |s| s.dts);
+            if (dts - first) + delta > u64::from(u32::MAX) {
+                return Err(Mp4WriterError::DurationOverflow);
+            }
             let delta = delta as u32;
             if let Some(last) = self.video_samples.last_mut() {
                 last.duration = Some(delta);
@@ -576,6 +582,11 @@ impl<Writer: Write> Mp4Writer<Writer> {
             }
             let d = pts - prev;
             if d > u64::from(u32::MAX) {
+                return Err(Mp4WriterError::DurationOverflow);
+            }
+            // Same 32-bit limit for the audio track's total duration.
+            let first = self.audio_samples.first().map_or(pts, |s| s.pts);
+            if (pts - first) + d > u64::from(u32::MAX) {
                 return Err(Mp4WriterError::DurationOverflow);
             }
             delta = Some(d as u32);
